@@ -40,11 +40,11 @@ def preload(prop):
 def gen_plan(prop, run_seed, tier):
     F = Forks(run_seed)
     w, s = F.fork("workload"), F.fork("schedule")
-    base_seed = w.choice([0, 1, 12, 2**31 - 1, w.randrange(2**32)])
-    n_chains = w.randint(1, 6)
+    base_seed = w.choice([0, 1, 12, 2**31 - 1, w.randrange(2**32), 2**32 - 1, 2**32, 2**40 + 7])
+    n_chains = w.randint(1, 6) if w.random() < 0.93 else w.choice([17, 33, 129])
     cfgs = []
     for k in range(6):
-        cfgs.append(dict(kind=w.choice(["mcmc"] * 4 + ["vi"]), b=w.choice([0, 0, 1, 2, 7, 40, 129]), t=w.choice([1, 1, 2, 3, 9, 33]),
+        cfgs.append(dict(kind=w.choice(["mcmc"] * 4 + ["vi"]), b=w.choice([0, 0, 1, 2, 7, 40, 129, 129, w.choice([1000, 1001, 2049, 4097])]), t=w.choice([1, 1, 2, 3, 9, 33]),
                          # sizes beyond any plausible block or cap (32, 64, 100, 256, 1000, 1024) in one run out of seven
                          n=w.choice([1, 2, 3, 10, 15, 10, 3, w.choice([33, 65, 101, 257, 300, 1001, 1025])]), seed=base_seed if k < 4 else w.randrange(2**32), n_chains=n_chains,
                          chain_index=w.randrange(n_chains), dirty=w.random() < 0.4, entropy=s.randrange(2**31),
